@@ -205,7 +205,160 @@ async def script_refused_silent_store(hist: History,
     await script_refused_store(hist, counters, silent=True)
 
 
-SCRIPTS = {'store-on-expunged': script_store_on_expunged,
+# -- maildir is a multi-process format ----------------------------------------
+#
+# pymap's maildir backend runs every command in a worker thread by default
+# (``Config.parse_args`` always builds a ThreadPoolExecutor), and other
+# processes (a delivery agent, a second server) work on the same directories.
+# The controlled loop cannot produce their interleavings: between two awaits a
+# command's filesystem calls are one atomic block.  The slice below therefore
+# lets an *external actor* act at the two windows that matter, exactly as
+# another thread or process could: (1) right after the server has looked a
+# message file up and before it uses the name, the file is renamed (a flag
+# change, which is how maildir stores flags); (2) after a STORE has renamed the
+# file and before the session takes its post-command snapshot, the flag is
+# changed back.  The oracle is the ordinary one: after NOOPs every session's
+# view must equal the mailbox.
+
+def _flag_rename(path: str, flag: str, add: bool, colon: str = ':') -> str:
+    """Rename a message file the way a maildir flag change does."""
+    import os
+    d, name = os.path.split(path)
+    base, _, info = name.partition(colon + '2,')
+    flags = set(info)
+    if add:
+        flags.add(flag)
+    else:
+        flags.discard(flag)
+    new = os.path.join(d, base + colon + '2,' + ''.join(sorted(flags)))
+    if new != path:
+        os.rename(path, new)
+    return new
+
+
+async def run_external(spec: dict[str, Any], hist: History,
+                       counters: dict[str, int]) -> None:
+    import os
+    from ..net import Sched
+    from pymap.backend.maildir import mailbox as mb
+    env = await make_env('maildir')
+    loop = asyncio.get_event_loop()
+    rng = random.Random(spec['seed'])
+    state = {'armed': None, 'fired': 0}
+    orig_lookup = mb.Maildir._lookup
+    orig_update_selected = mb.MailboxData.update_selected
+
+    def lookup(self: Any, key: str) -> str:
+        sub = orig_lookup(self, key)
+        arm = state['armed']
+        if arm and arm[0] == 'lookup' and sub.startswith('cur/'):
+            arm[1] -= 1
+            if arm[1] < 0:
+                state['armed'] = None
+                state['fired'] += 1
+                path = os.path.join(self._path, sub)
+                if os.path.exists(path):
+                    # toggle one flag letter
+                    _flag_rename(path, arm[2],
+                                 arm[2] not in sub.partition(':2,')[2])
+        return sub
+
+    async def update_selected(self: Any, selected: Any, *,
+                              wait_on: Any = None) -> Any:
+        arm = state['armed']
+        if arm and arm[0] == 'snapshot':
+            state['armed'] = None
+            cur = os.path.join(self._path, 'cur')
+            for name in sorted(os.listdir(cur)):
+                info = name.partition(':2,')[2]
+                if arm[1] in info:
+                    state['fired'] += 1
+                    _flag_rename(os.path.join(cur, name), arm[1], False)
+                    break
+        return await orig_update_selected(self, selected, wait_on=wait_on)
+
+    mb.Maildir._lookup = lookup                             # type: ignore
+    mb.MailboxData.update_selected = update_selected        # type: ignore
+    try:
+        if not await provision(env, hist, spec['nmsgs'], rng):
+            return
+        sessions = [Session(env, hist, i + 1, Sched(), spec['seed'] * 31 + i)
+                    for i in range(spec['nsess'])]
+        for s in sessions:
+            if not await s.start():
+                return
+            if not (await s.select(b'INBOX')).ok:
+                return
+            await s.fetch_all()
+        for rnd in range(spec['rounds']):
+            a = rng.choice(sessions)
+            kind = spec.get('window') or rng.choice(['lookup', 'snapshot'])
+            if kind == 'lookup':
+                # the k-th lookup of A's next command races with a rename
+                # (a command looks every message up several times: listing
+                # the directory, reading the UID list, taking the snapshot)
+                state['armed'] = ['lookup',
+                                  rng.randrange(4 * spec['nmsgs'] + 2),
+                                  rng.choice('SFRT')]
+                verb = rng.choice(['noop', 'fetch', 'store', 'expunge',
+                                   'check'])
+                if verb == 'noop':
+                    await a.noop()
+                elif verb == 'fetch':
+                    await a.fetch_all()
+                elif verb == 'check':
+                    await a.cmd(b'CHECK')
+                elif verb == 'expunge':
+                    await a.cmd(b'EXPUNGE')
+                else:
+                    await a.store(b'1:*', False, rng.choice(
+                        [b'+FLAGS', b'-FLAGS']), rng.random() < 0.5,
+                        [rng.choice([b'\\Seen', b'\\Flagged'])])
+            else:
+                # A stores a flag; it is taken away again before A looks
+                flag, letter = rng.choice([(b'\\Answered', 'R'),
+                                           (b'\\Flagged', 'F'),
+                                           (b'\\Seen', 'S')])
+                state['armed'] = ['snapshot', letter]
+                n = len(a.shadow.uids)
+                if n == 0:
+                    state['armed'] = None
+                    continue
+                await a.store(b'%d' % rng.randint(1, n), False, b'+FLAGS',
+                              rng.random() < 0.4, [flag])
+            state['armed'] = None
+            await loop.quiescent()      # type: ignore[attr-defined]
+            # every session polls twice: the first NOOP may find the change
+            for s in sessions:
+                if s.alive:
+                    await s.noop()
+            await converge_check(env, hist, sessions, counters,
+                                 'external %s, round %d' % (kind, rnd))
+            if hist.violations or hist.aborted:
+                break
+        counters['external_actions'] = counters.get(
+            'external_actions', 0) + state['fired']
+    finally:
+        mb.Maildir._lookup = orig_lookup                    # type: ignore
+        mb.MailboxData.update_selected = orig_update_selected  # type: ignore
+        env.cleanup()
+
+
+async def script_external_lookup(hist: History,
+                                 counters: dict[str, int]) -> None:
+    await run_external({'seed': 5, 'nmsgs': 4, 'nsess': 2, 'rounds': 6,
+                        'window': 'lookup'}, hist, counters)
+
+
+async def script_external_snapshot(hist: History,
+                                   counters: dict[str, int]) -> None:
+    await run_external({'seed': 5, 'nmsgs': 4, 'nsess': 2, 'rounds': 6,
+                        'window': 'snapshot'}, hist, counters)
+
+
+SCRIPTS = {'external-lookup': script_external_lookup,
+           'external-snapshot': script_external_snapshot,
+           'store-on-expunged': script_store_on_expunged,
            'silent-store': script_silent_store,
            'refused-store': script_refused_store,
            'refused-silent-store': script_refused_silent_store}
@@ -239,6 +392,12 @@ class C02(Check):
                    'rounds': rng.randint(1, 3),
                    'per_round': rng.randint(1, 5 if backend == 'dict' else 3),
                    'sched': schedule_family(rng, nsess)}
+        # maildir: another thread or process renames message files in the
+        # two windows described above run_external()
+        for i in range(200 if tier == 'quick' else 4000):
+            yield {'kind': 'external', 'seed': seed * 1_000_003 + 500_000 + i,
+                   'nmsgs': rng.randint(3, 7), 'nsess': rng.choice([2, 3]),
+                   'rounds': rng.randint(2, 5)}
 
     def setup_worker(self) -> None:
         install_glass()
@@ -251,6 +410,8 @@ class C02(Check):
         async def main(loop: L.CtlLoop) -> None:
             if 'script' in spec:
                 await SCRIPTS[spec['script']](hist, extra)
+            elif spec.get('kind') == 'external':
+                await run_external(spec, hist, extra)
             else:
                 await run_history(spec, hist, extra)
 
